@@ -471,6 +471,14 @@ def cellOfTuple (sheet : Str) (b : Bounds) : Except PyErr Addr :=
   if !b.hasNone ∨ (b.c1, b.r1) = (b.c2, b.r2) then mkCell sheet (b.c1.getD 0) (b.r1.getD 0)
   else .error .assertion
 
+/-- `AddressRange(obj, sheet=…)` / `AddressCell(obj, sheet=…)` / `AddressRange.create(obj, sheet=…)` on an address
+    object: the same address, put on `sheet` when it has none; a different sheet is a ValueError.  A derived object
+    is just a new value: nothing of the source object's history is part of it. -/
+def resheet (a : Addr) (sheet : Str) : Except PyErr Addr :=
+  if sheet = [] ∨ sheet = a.rect.sheet then .ok a
+  else if a.rect.sheet = [] then .ok { a with rect := { a.rect with sheet := sheet } }
+  else .error .valueError
+
 /-! ### printing -/
 
 def cellCoord (col row : Nat) : Str := colLetters col ++ (if row = 0 then [] else natStr row)
